@@ -156,3 +156,112 @@ func (b *Bool) Store(x bool) {
 		StoreUint32(&b.v, 0)
 	}
 }
+
+// ---------------------------------------------------------------------------
+// The rest of sync/atomic. p9 does not use these today; they are here so that
+// a change to p9 that starts using them is explored like everything else
+// instead of failing to build against the shim.
+
+func SwapInt64(p *int64, n int64) int64 {
+	step("atomic.SwapInt64", unsafe.Pointer(p), vsched.KAtomRMW)
+	return atomic.SwapInt64(p, n)
+}
+func SwapUint64(p *uint64, n uint64) uint64 {
+	step("atomic.SwapUint64", unsafe.Pointer(p), vsched.KAtomRMW)
+	return atomic.SwapUint64(p, n)
+}
+func SwapUintptr(p *uintptr, n uintptr) uintptr {
+	step("atomic.SwapUintptr", unsafe.Pointer(p), vsched.KAtomRMW)
+	return atomic.SwapUintptr(p, n)
+}
+func SwapPointer(p *unsafe.Pointer, n unsafe.Pointer) unsafe.Pointer {
+	step("atomic.SwapPointer", unsafe.Pointer(p), vsched.KAtomRMW)
+	return atomic.SwapPointer(p, n)
+}
+func AddUintptr(p *uintptr, d uintptr) uintptr {
+	step("atomic.AddUintptr", unsafe.Pointer(p), vsched.KAtomRMW)
+	return atomic.AddUintptr(p, d)
+}
+func LoadUintptr(p *uintptr) uintptr {
+	step("atomic.LoadUintptr", unsafe.Pointer(p), vsched.KAtomLoad)
+	return atomic.LoadUintptr(p)
+}
+func LoadPointer(p *unsafe.Pointer) unsafe.Pointer {
+	step("atomic.LoadPointer", unsafe.Pointer(p), vsched.KAtomLoad)
+	return atomic.LoadPointer(p)
+}
+func StoreUintptr(p *uintptr, v uintptr) {
+	step("atomic.StoreUintptr", unsafe.Pointer(p), vsched.KAtomRMW)
+	atomic.StoreUintptr(p, v)
+}
+func StorePointer(p *unsafe.Pointer, v unsafe.Pointer) {
+	step("atomic.StorePointer", unsafe.Pointer(p), vsched.KAtomRMW)
+	atomic.StorePointer(p, v)
+}
+func CompareAndSwapUintptr(p *uintptr, o, n uintptr) bool {
+	step("atomic.CasUintptr", unsafe.Pointer(p), vsched.KAtomRMW)
+	return atomic.CompareAndSwapUintptr(p, o, n)
+}
+func CompareAndSwapPointer(p *unsafe.Pointer, o, n unsafe.Pointer) bool {
+	step("atomic.CasPointer", unsafe.Pointer(p), vsched.KAtomRMW)
+	return atomic.CompareAndSwapPointer(p, o, n)
+}
+
+func (u *Uint64) Swap(n uint64) uint64 { return SwapUint64(&u.v, n) }
+func (u *Uint32) Swap(n uint32) uint32 { return SwapUint32(&u.v, n) }
+func (u *Int64) Swap(n int64) int64    { return SwapInt64(&u.v, n) }
+func (u *Int32) Swap(n int32) int32    { return SwapInt32(&u.v, n) }
+
+func b2u(x bool) uint32 {
+	if x {
+		return 1
+	}
+	return 0
+}
+
+func (b *Bool) Swap(n bool) bool { return SwapUint32(&b.v, b2u(n)) != 0 }
+func (b *Bool) CompareAndSwap(o, n bool) bool {
+	return CompareAndSwapUint32(&b.v, b2u(o), b2u(n))
+}
+
+// Uintptr mirrors atomic.Uintptr.
+type Uintptr struct{ v uintptr }
+
+func (u *Uintptr) Load() uintptr                    { return LoadUintptr(&u.v) }
+func (u *Uintptr) Store(x uintptr)                  { StoreUintptr(&u.v, x) }
+func (u *Uintptr) Add(d uintptr) uintptr            { return AddUintptr(&u.v, d) }
+func (u *Uintptr) Swap(n uintptr) uintptr           { return SwapUintptr(&u.v, n) }
+func (u *Uintptr) CompareAndSwap(o, n uintptr) bool { return CompareAndSwapUintptr(&u.v, o, n) }
+
+// Pointer mirrors atomic.Pointer.
+type Pointer[T any] struct {
+	_ [0]*T
+	v unsafe.Pointer
+}
+
+func (p *Pointer[T]) Load() *T     { return (*T)(LoadPointer(&p.v)) }
+func (p *Pointer[T]) Store(x *T)   { StorePointer(&p.v, unsafe.Pointer(x)) }
+func (p *Pointer[T]) Swap(n *T) *T { return (*T)(SwapPointer(&p.v, unsafe.Pointer(n))) }
+func (p *Pointer[T]) CompareAndSwap(o, n *T) bool {
+	return CompareAndSwapPointer(&p.v, unsafe.Pointer(o), unsafe.Pointer(n))
+}
+
+// Value mirrors atomic.Value.
+type Value struct{ v atomic.Value }
+
+func (v *Value) Load() any {
+	step("atomic.Value.Load", unsafe.Pointer(&v.v), vsched.KAtomLoad)
+	return v.v.Load()
+}
+func (v *Value) Store(x any) {
+	step("atomic.Value.Store", unsafe.Pointer(&v.v), vsched.KAtomRMW)
+	v.v.Store(x)
+}
+func (v *Value) Swap(n any) any {
+	step("atomic.Value.Swap", unsafe.Pointer(&v.v), vsched.KAtomRMW)
+	return v.v.Swap(n)
+}
+func (v *Value) CompareAndSwap(o, n any) bool {
+	step("atomic.Value.Cas", unsafe.Pointer(&v.v), vsched.KAtomRMW)
+	return v.v.CompareAndSwap(o, n)
+}
